@@ -366,6 +366,7 @@ type Conn struct {
 	reads    int
 	writes   int
 	closes   int
+	readFromCalls int
 }
 
 func (c *Conn) opErr(op string, e error) error {
@@ -484,6 +485,54 @@ func (c *Conn) Close() error {
 	c.cond.Broadcast()
 	c.peer.cond.Broadcast()
 	return nil
+}
+
+// ReadFrom and WriteTo exist because *net.TCPConn has them (sendfile / splice fast paths): code that type-asserts
+// io.ReaderFrom / io.WriterTo on the raw connection takes the same branch here as on a real socket. They move the
+// same bytes as a Write / Read loop would, and are counted so that a layer that must see every byte can be checked.
+func (c *Conn) ReadFrom(r io.Reader) (int64, error) {
+	c.mu.Lock()
+	c.readFromCalls++
+	c.mu.Unlock()
+	buf := make([]byte, 32<<10)
+	var total int64
+	for {
+		n, err := r.Read(buf)
+		if n > 0 {
+			m, werr := c.Write(buf[:n])
+			total += int64(m)
+			if werr != nil {
+				return total, werr
+			}
+		}
+		if err != nil {
+			if err == io.EOF {
+				err = nil
+			}
+			return total, err
+		}
+	}
+}
+
+func (c *Conn) WriteTo(w io.Writer) (int64, error) {
+	buf := make([]byte, 32<<10)
+	var total int64
+	for {
+		n, err := c.Read(buf)
+		if n > 0 {
+			m, werr := w.Write(buf[:n])
+			total += int64(m)
+			if werr != nil {
+				return total, werr
+			}
+		}
+		if err != nil {
+			if err == io.EOF {
+				err = nil
+			}
+			return total, err
+		}
+	}
 }
 
 // CloseWrite half-closes the sending side (FIN).
